@@ -112,6 +112,7 @@ Proof.
   assert (Hsim : sim c [] (stream_run (with_stop c 0) w ps merged_end merged forked)
                           (stream_run c w ps merged_end merged forked)).
   { unfold stream_run. cbv zeta.
+    rewrite (file_end_not1 c merged_end), (file_end_not1 (with_stop c 0) merged_end) by (cbn [j_mode with_stop]; rewrite Hmode; reflexivity).
     cbn [j_first j_start j_stop j_mode j_filter j_cursor j_bundle with_stop].
     fold (run_start c w). fold start. rewrite Hstart, Hmode.
     replace (j_stop c =? 0) with false by (symmetry; apply N.eqb_neq; exact HS).
@@ -234,7 +235,7 @@ Proof.
     rewrite andb_false_r, Hmode, Hfilter. cbn [N.eqb andb].
     destruct (live_try c (w_hub w) start); [apply live_phase_not_invalid| |discriminate|discriminate].
     intros H. apply file_phase_invalid in H.
-    destruct (negb (j_stop c =? 0) && ((j_stop c / j_bundle c + 1) * j_bundle c <=? merged_end)); discriminate. }
+    destruct (file_end_cases c merged_end) as [E|E]; rewrite E in H; discriminate. }
   apply (c13_stop_cut_proof U c w ps merged_end merged forked Hwfb Hlok Hhub HS Hbound Hsorted Hmend Hmode HpN HpNI Hninv).
   exists e. split; [exact He|]. unfold enum. rewrite Heb, HnS. lia.
 Qed.
